@@ -151,6 +151,13 @@ def main(tier):
     for t in ["{ RdV = get_npc(pkt); }", "{ HEX_REG_ALIAS_LR = get_npc(pkt); JUMP(riV); }", "{ RdV = get_corresponding_CS(pkt, MuV); }", "{ set_usr_field(bundle, HEX_REG_FIELD_USR_OVF, 1); RdV = get_usr_field(bundle, HEX_REG_FIELD_USR_OVF); }",
               "{ if (PuV & 1) { STORE_SLOT_CANCELLED(pkt, slot); } }", "{ RdV = fcirc_add(bundle, RxV, siV, MuV, get_corresponding_CS(pkt, MuV)); }"]:
         items.append({"id": f"par{len(items)}", "entry": "stmt", "text": t})
+    # writer / reader / read-modify-write of every register alias, explicit registers and read-write operands (objects that could be cached per name)
+    for a in ["LR", "SP", "FP", "SA0", "LC0", "SA1", "LC1", "USR", "GP", "UGP", "M0", "CS0", "P3_0", "UPCYCLE"]:
+        items.append({"id": f"par{len(items)}", "entry": "stmt", "text": f"{{ HEX_REG_ALIAS_{a} = RsV; }}"})
+        items.append({"id": f"par{len(items)}", "entry": "stmt", "text": f"{{ RdV = HEX_REG_ALIAS_{a} + 1; }}"})
+    for t in ["{ HEX_REG_ALIAS_LC0 = HEX_REG_ALIAS_LC0 - 1; }", "{ RdV = HEX_REG_ALIAS_LC0_NEW; }", "{ R31 = RsV; }", "{ RdV = R31; }", "{ P0 = RsV; }", "{ RdV = P0; }", "{ RdV = P0_NEW; }",
+              "{ RxV = RsV; }", "{ RdV = RxV; }", "{ RxV += RsV; }", "{ RyyV = RssV; }", "{ RddV = RyyV; }", "{ PxV = PxV & PsV; }", "{ RdV = PxV; }", "{ C3:2 = RssV; }" if False else "{ RddV = C3:2; }"]:
+        items.append({"id": f"par{len(items)}", "entry": "stmt", "text": t})
     names = [nm for nm in corpus.stratified_sample(beh, 400, run.seed) if sum(len(b) for b in beh[nm]) < 240]
     rng.shuffle(names)
     for nm in names[: (30 if tier == "quick" else 250)]:
@@ -236,7 +243,8 @@ def main(tier):
         pending = []
         two = h % 3 == 0
         # items that use the long-lived parameter operands (pkt, hi, bundle) occur twice in every long history
-        pool = pool + [it for it in usable if it["id"].startswith("par")] * 2
+        pars = [it for it in usable if it["id"].startswith("par")]
+        pool = pool + r2.sample(pars, min(len(pars), 18)) * 2
         r2.shuffle(pool)
         for it in pool:
             comp = r2.choice(["A", "B"]) if two else "A"
